@@ -18,3 +18,9 @@ import Pms.Props.C09
 #print axioms Pms.Boo.C09_w_def
 #print axioms Pms.Boo.C09_w_source
 #print axioms Pms.Boo.C09_wcap_def
+#print axioms Pms.Boo.C09_timecorr_def
+#print axioms Pms.Boo.C09_corr_def
+#print axioms Pms.Boo.C09_spatial_def
+#print axioms Pms.Boo.C09_frame_mean
+#print axioms Pms.Boo.castPoly_eq_map
+#print axioms Pms.Boo.powN_eq_pow
